@@ -236,6 +236,20 @@ def wnafHistory (g : GroupCtx F) (ctx : WnafCtx F) : List String → List String
       wnafHistory g ⟨ctx.base, ctx'.scalar⟩ rest (showJac g res :: acc)
     | _ => none
 
+/-- a table shared between threads: every thread = a fresh context doing `base(b, n)` then `scalar(k)` -/
+def wnafShareBase (g : GroupCtx F) (b : Jac F) (n : Nat) (ks : List Nat) : Option String := do
+  let outs ← ks.mapM (fun k => do
+    let (res, _) ← (WnafCtx.mk [] [] : WnafCtx F).baseThenScalar g.rc b n k
+    pure (showJac g res))
+  pure (";".intercalate outs)
+
+/-- a digit string shared between threads: every thread = a fresh context doing `scalar(k)` then `base(b)` -/
+def wnafShareScalar (g : GroupCtx F) (k : Nat) (bs : List (Jac F)) : Option String := do
+  let outs ← bs.mapM (fun b => do
+    let (res, _) ← (WnafCtx.mk [] [] : WnafCtx F).scalarThenBase g.rc k b
+    pure (showJac g res))
+  pure (";".intercalate outs)
+
 def showDecode (g : GroupCtx F) : Except DecodeErr (Aff F) → String
   | .ok a => (affIO g.io).shw a
   | .error e => "ERR:" ++ e.toString
@@ -297,6 +311,12 @@ def groupOp (g : GroupCtx F) (op : String) (args : List String) : Option String 
   | "wnaftable", [w, p] => do
       let w ← parseHex w; let p ← J.parse p
       pure (";".intercalate ((wnafTable [] p w).map (showJac g)))
+  | "wnafshare_base", [b, n, ks] => do
+      let b ← J.parse b; let n ← parseHex n; let ks ← (splitList ks).mapM parseHex
+      pure ((wnafShareBase g b n ks).getD "PANIC")
+  | "wnafshare_scalar", [k, bs] => do
+      let k ← parseHex k; let bs ← (splitList bs).mapM J.parse
+      pure ((wnafShareScalar g k bs).getD "PANIC")
   | "wnafhist", [h] => do
       pure (match wnafHistory g WnafCtx.new (splitList h) [] with
         | none => "PANIC"
@@ -478,6 +498,12 @@ def miscOp (op : String) (args : List String) : Option String :=
         | some m => pure (showOpt fq12IO.shw (finalExponentiation m))
         | none => pure "PANIC"
       | _, _ => pure "PANIC"
+  | "pairshare", [ps, q] => do
+      let ps ← (splitList ps).mapM A1.parse; let q ← A2.parse q
+      let prep := G2Prepared.fromAffine q
+      pure (";".intercalate (ps.map (fun p => match millerLoop [(p, prep)] with
+        | some m => showOpt fq12IO.shw (finalExponentiation m)
+        | none => "PANIC")))
   | "pairwith1", [p, q] => do let p ← A1.parse p; let q ← A2.parse q; pure (showFq12O (pairing p q))
   | "pairwith2", [p, q] => do let p ← A1.parse p; let q ← A2.parse q; pure (showFq12O (pairing p q))
   | "consts", ["fq"] => pure (toHex Gen.q ++ " " ++ toString Gen.fq_MODULUS_BITS ++ " " ++ toString (Gen.fq_MODULUS_BITS - 1) ++ " " ++
